@@ -250,4 +250,46 @@ theorem binbuf_other {dec : Str → Except Err (Packet × Nat)} {cfg : Cfg} {s :
       | other => rfl
   exact key _ (frameCase dec cfg s t' v)
 
+/-! ### frames that complete an EVENT -/
+
+variable {dec : Str → Except Err (Packet × Nat)} {cfg : Cfg}
+
+/-- Frame `v` from transport `t` completes an EVENT `(nsp, id, data)` in state `s`: a text EVENT
+    packet, or the last attachment of a BINARY_EVENT (then `data` is the reconstructed payload and
+    the packet leaves the reassembly buffer: `s₀ = dropBin s t`). -/
+inductive CompletesEvent (dec : Str → Except Err (Packet × Nat)) (s : Srv) (t : Eio) (v : J) :
+    Option Str → Option Nat → Option J → Srv → Prop where
+  | text {p : Packet} {n : Nat} : s.binbuf.find? (fun e => e.1 = t) = none →
+      frameDecode dec v = .ok (p, n) → p.type = EVENT → CompletesEvent dec s t v p.nsp p.id p.data s
+  | binary {t' : Eio} {part : Partial} {d : Option J} :
+      s.binbuf.find? (fun e => e.1 = t) = some (t', part) → ¬ part.need ≤ part.got.length →
+      part.need = (part.got ++ [v]).length → reconData part (part.got ++ [v]) = .ok d →
+      part.pkt.type = BINARY_EVENT →
+      CompletesEvent dec s t v part.pkt.nsp part.pkt.id d (dropBin s t)
+
+theorem step_of_completesEvent {s s₀ : Srv} {t : Eio} {v : J} {nsp : Option Str} {id : Option Nat}
+    {data : Option J} (h : CompletesEvent dec s t v nsp id data s₀) :
+    step dec cfg s (.frame t v) = handleEvent cfg s₀ t nsp id data := by
+  rw [step]
+  cases h with
+  | text hf hd ht =>
+    rw [handleFrame_text dec cfg hf, hd]
+    unfold dispatchPacket
+    simp [ht, EVENT, CONNECT, DISCONNECT]
+  | binary hf h1 h2 h3 h4 => rw [handleFrame_last dec cfg hf h1 h2 h3, if_pos h4]
+
+theorem CompletesEvent.state {s s₀ : Srv} {t : Eio} {v : J} {nsp : Option Str} {id : Option Nat}
+    {data : Option J} (h : CompletesEvent dec s t v nsp id data s₀) : s₀ = s ∨ s₀ = dropBin s t := by
+  cases h with
+  | text => exact Or.inl rfl
+  | binary => exact Or.inr rfl
+
+theorem CompletesEvent.wf {s s₀ : Srv} {t : Eio} {v : J} {nsp : Option Str} {id : Option Nat}
+    {data : Option J} (h : CompletesEvent dec s t v nsp id data s₀) (hw : WF s) :
+    WF s₀ ∧ s₀.rooms = s.rooms ∧ s₀.socks = s.socks := by
+  cases h with
+  | text => exact ⟨hw, rfl, rfl⟩
+  | binary => exact ⟨⟨hw.toWF0.filterBin _, hw.pendingNil⟩, rfl, rfl⟩
+
+
 end Sio.Server
